@@ -12,6 +12,8 @@ CLAIMED = {
    text="Seeded search over routing trees, alert timelines, silences, inhibit rules, time intervals, receiver fault windows (5xx/4xx/hang/reset/slow), valid and rejected reloads and scheduling holds; the oracle asserts, for every alert that the reference models say was eligible for longer than max(group_wait,group_interval)+flush timeout+6s with a healthy integration, that the latest delivered notification for its group lists it as firing. Sampling of a huge space is the honest level; every reported failure is minimised and replayed."),
  "C02": dict(category="exploration", ref="5 (C02)", technique=SIM + "; crafted replicated versions through Silences.Merge; concurrent Mutes calls parked at yield points; brute-force evaluation of Query() as oracle",
    text="At every probe Silencer.Mutes (with marker) for every label set of the run is compared with a direct evaluation of all silences Query() returns, after arbitrary histories of API create/edit/expire, merged replicated versions (extend/shorten/expire/revive/stale/duplicate/new/two OR-ed sets), GC, alert GC and snapshot reload; concurrent probes parked inside Mutes must be regular (per silence) with respect to the store states of their interval; notifications never list an alert silenced during the whole flush window."),
+ "C03": dict(category="exploration", ref="5 (C03)", technique=SIM + "; state-based reference: the existential rule evaluated over the alerts of the same GET response",
+   text="For every alert returned by every GET /api/v2/alerts probe (after each POST and at random instants) the reported inhibition is compared with the existential rule evaluated over the alerts of the same response (labels, end times), including the two-sided exception and missing equal labels; histories refresh sources with unordered end times, resolve, time out, re-fire, with provider GC and the inhibitor's own cache GC inside the run; notifications are checked against probes that bracket their flush window."),
  "C04": dict(category="exploration", ref="5 (C04)", technique=SIM + "; per (group, integration) notification sequences over virtual hours to days",
    text="Runs cover 2-30 virtual hours so that several repeat_intervals, nflog GC runs, snapshots, reloads and graceful restarts occur; every notification attempt must be justified against the previous delivered one (new firing alert, new resolved alert with send_resolved, repeat_interval elapsed, or a moment without a firing unsuppressed alert), resolved-only notifications must follow a firing one, and an unchanged healthy group must be re-notified within repeat_interval+group_interval+slack."),
  "C05": dict(category="exploration", ref="5 (C05)", technique=SIM + "; resolves/flaps placed inside in-flight deliveries (slow/hanging receivers, hold before the delete of resolved alerts)",
